@@ -335,6 +335,27 @@ func checkRaw(c RawCase) vk.Verdict {
 	if ran && st != "200" && st != "400" && st != "413" && st != "431" && st != "422" && st != "415" {
 		return vk.Failf("%s: with automatic error handling the binding failure is answered %s, want 400", ctx, st)
 	}
+	// automatic handling is a per-call choice: the same manual-mode binds on the same app after the auto-handled ones
+	// report the same errors and leave the status to the handler
+	// (which of several conversion errors the message names first depends on map order: compare failed / did not fail)
+	outcome := func() string {
+		var parts []string
+		for _, k := range []string{"query", "form", "header", "cookie", "body", "querymap"} {
+			parts = append(parts, fmt.Sprintf("%s failed=%v", k, results[k] != "<nil>"))
+		}
+		return strings.Join(parts, ", ")
+	}
+	first := outcome()
+	for k := range results {
+		delete(results, k)
+	}
+	out3, err := vk.Wire(app, vk.Req("POST", "/plain?"+c.Query, hdr, c.Body))
+	if err != nil {
+		return vk.Failf("%s (manual handling again): %v", ctx, err)
+	}
+	if ran && (!strings.HasPrefix(string(out3), "HTTP/1.1 200") || outcome() != first) {
+		return vk.Failf("%s: manual-mode binds answered 200 with %s; the same request after an auto-handled one on the same app is answered %.12q with %s", ctx, first, out3, outcome())
+	}
 	return vk.Verdict{NonTrivial: ran && (results["query"] != "<nil>" || results["body"] != "<nil>"), Classes: []string{"status:" + st}}
 }
 
